@@ -399,17 +399,21 @@ fn dechunk(mut b: &[u8]) -> Option<Vec<u8>> {
     let mut out = Vec::new();
     loop {
         let line_end = b.windows(2).position(|w| w == b"\r\n")?;
-        let size =
-            usize::from_str_radix(std::str::from_utf8(&b[..line_end]).ok()?.trim(), 16).ok()?;
+        // RFC 9112 7.1.1: the chunk size may be followed by `;name[=value]`
+        // chunk extensions, which a recipient ignores.
+        let line = std::str::from_utf8(&b[..line_end]).ok()?;
+        let size = usize::from_str_radix(line.split(';').next()?.trim(), 16).ok()?;
         b = &b[line_end + 2..];
         if size == 0 {
             return Some(out);
         }
-        if b.len() < size + 2 {
+        // Checked: a hostile size near usize::MAX must not wrap the bound.
+        let end = size.checked_add(2)?;
+        if b.len() < end || &b[size..end] != b"\r\n" {
             return None;
         }
         out.extend_from_slice(&b[..size]);
-        b = &b[size + 2..];
+        b = &b[end..];
     }
 }
 
